@@ -459,7 +459,7 @@ def deref_value(vm, place_ref, v):
         inner = v.fields[0]
         if isinstance(inner, (SymStr, BStr)): return inner
         return Ref(place_ref.cell, place_ref.path + (0,))
-    if isinstance(v, Ref): return v
+    if isinstance(v, (Ref, SliceRef)): return v
     if isinstance(v, Adt) and v.ty == 'ManuallyDrop': return Ref(place_ref.cell, place_ref.path + (0,))
     raise Unmodelled(f'Deref of {v!r}')
 
